@@ -68,7 +68,7 @@ pub fn parse_envelope(from: &str, to: &str) -> Option<Option<Envelope>> {
 fn run_sync(port: u16, job: &Job) -> (Vec<String>, String) {
     let hello = ClientId::Domain(job.hello.clone());
     let mut out = Vec::new();
-    let mut conn = match SmtpConnection::connect(("127.0.0.1", port), Some(Duration::from_secs(3)), &hello, None, None) {
+    let mut conn = match SmtpConnection::connect((crate::util::lo(), port), Some(Duration::from_secs(3)), &hello, None, None) {
         Ok(c) => c,
         Err(e) => {
             out.push(format!("connect:{}", describe_err(&e)));
@@ -103,7 +103,7 @@ async fn run_async(port: u16, job: &Job) -> (Vec<String>, String) {
     let lim = Duration::from_secs(3);
     let c = tokio::time::timeout(
         lim,
-        AsyncSmtpConnection::connect_tokio1(("127.0.0.1", port), Some(lim), &hello, None, None),
+        AsyncSmtpConnection::connect_tokio1((crate::util::lo(), port), Some(lim), &hello, None, None),
     )
     .await;
     let mut conn = match c {
